@@ -107,12 +107,37 @@ def confirm(cell, viol):
     return any((v[0], v[1]) == (viol["prop"], viol["key"]) for v in w.viol)
 
 
-def load_known():
+def load_known(status="open"):
     path = os.path.join(VERIF, "known_findings.json")
     if not os.path.exists(path):
         return []
     with open(path) as f:
-        return [k for k in json.load(f).get("findings", []) if k.get("status") == "open"]
+        return [k for k in json.load(f).get("findings", []) if k.get("status") == status]
+
+
+def regression_replays(prop):
+    """Fixed findings suppress nothing: their failing schedules are replayed on every run."""
+    from . import explorer
+
+    bad = []
+    n = 0
+    for k in load_known("fixed"):
+        if k["property"] != prop or not k.get("reproducer"):
+            continue
+        path = os.path.join(VERIF, k["reproducer"])
+        with open(path) as f:
+            body = json.load(f)
+        if body.get("world", "pool") not in ("pool", "queue"):
+            continue
+        cell = {"name": body["cell"], "world": body.get("world", "pool"), "monitors": body.get("monitors", []), "scen": body["scen"]}
+        try:
+            w, ctl = explorer.replay(world_factory(cell), body["scen"], body["choices"])
+        except explorer.ReplayDivergence:
+            continue  # the schedule no longer exists on this tree (e.g. fewer choice points): nothing to report
+        n += 1
+        if w.viol:
+            bad.append((path, k, w.viol[0]))
+    return n, bad
 
 
 def run_property(prop, tier, seed, jobs=None, only=None, budget=None):
@@ -142,6 +167,9 @@ def run_property(prop, tier, seed, jobs=None, only=None, budget=None):
     errors = [r for r in results.values() if "error" in r]
     known = [k for k in load_known() if k["property"] == prop]
     viol_lines = []
+    n_regr, regr_bad = regression_replays(prop)
+    for path, k, v in regr_bad:
+        viol_lines.append((path, "regression:" + k["id"], {"prop": v[0], "key": v[1], "detail": repr(v[2:])}))
     known_hit = {}
     n_viol = 0
     for name, r in sorted(results.items()):
@@ -212,6 +240,7 @@ def run_property(prop, tier, seed, jobs=None, only=None, budget=None):
             "fingerprint_cross_validation": xvals,
             "explanation": getattr(mod, "EXPLANATION", ""),
             "known_findings_hit": sorted(known_hit),
+            "fixed_finding_schedules_replayed": n_regr,
         },
         "assumptions": getattr(mod, "ASSUMPTIONS", []) + [
             "every execution runs the real asyncio_taskpool code from the current working tree on a virtual event loop; "
@@ -219,7 +248,7 @@ def run_property(prop, tier, seed, jobs=None, only=None, budget=None):
             "CPython 3.12.1 asyncio semantics (FIFO ready queue, Semaphore hand-off)",
         ],
         "wall_s": round(wall, 2),
-        "violations": n_viol,
+        "violations": n_viol + len(regr_bad),
     }
     os.makedirs(os.path.join(VERIF, "evidence"), exist_ok=True)
     with open(os.path.join(VERIF, "evidence", f"{prop}.json"), "w") as f:
